@@ -6,7 +6,8 @@ strings.  Must not import `experiment.*`.
 Abstract case (JSON-able)::
 
     {'comps': [ {'name': str, 'stage': int,
-                 'rep': None | {'n': int, 'form': 'lit'|'gvar'|'svar'},      # the component requests n replicas
+                 'rep': None | {'n': int, 'form': str},      # the component requests n replicas; form = how n is
+                                                             # written (literal / variable scopes, see gen.build_doc)
                  'agg': bool,                                                # aggregating component
                  'refs': [ {'p': int,            # index of the producer in comps (always smaller than the consumer)
                             'abs': bool,         # spelled stage<N>.name (True) or name (False, same stage only)
